@@ -18,6 +18,7 @@ core.setup_path()
 from harness import vrt                     # noqa: E402
 from harness.broker import Broker           # noqa: E402
 from harness.core import coq_nat, coq_bool, coq_list   # noqa: E402
+from amqpstorm.exception import AMQPMessageError   # noqa: E402
 
 STATES = {0: 'CLOSED', 1: 'CLOSING', 2: 'OPENING', 3: 'OPEN'}
 
@@ -167,7 +168,8 @@ class Life(object):
             chans.append('{| lc_id := %s; lc_state := %s; lc_confirm := %s; lc_inbound := %s; '
                          'lc_errs := %s; lc_registered := %s |}' % (
                              coq_nat(ch.channel_id), STATES[ch.current_state], coq_bool(ch.confirming_deliveries),
-                             coq_nat(len(ch._inbound)), coq_nat(len(ch.exceptions)),
+                             coq_nat(len(ch._inbound)),
+                             coq_list([coq_bool(isinstance(e, AMQPMessageError)) for e in ch.exceptions]),
                              coq_bool(conn._channels.get(ch.channel_id) is ch)))
         return ('{| lo_res := %s; lo_conn := %s; lo_reg := %s; lo_socks := %s; lo_threads := %s; '
                 'lo_timers := %s; lo_hb := %s; lo_errs := %s; lo_chans := %s |}' % (
